@@ -20,7 +20,7 @@ RULE = (
     "great circles = 20 rational frames (equator, planes through the poles, meridian planes, generic tilts) x arcs = all ordered pairs of 16 rational angles "
     "forming a minor arc of length in (1e-3, pi-1e-3); point_within_gca: every arc x every on-circle lattice angle (inside/outside, margin >= 1e-6 rad from the "
     "endpoints) x every off-circle lattice point (>= 1e-6 rad from the plane); gca_gca_intersection: all unordered pairs of an arc subset closed under endpoint swap, "
-    "on different circles, every sign quantity >= 1e-6 rad; extreme_gca_latitude: every arc x {max, min} with the interior-extremum decision >= 1e-6 rad; each case also "
+    "on different circles, every sign quantity >= 1e-6 rad; extreme_gca_latitude: every arc x the call sequence max, min, max on ONE caller-owned array (which must stay unchanged) with the interior-extremum decision >= 1e-6 rad; kilometre-scale arcs (0.03-0.3 degrees) on 6 local rational lattices (generic, equator/prime meridian, antimeridian, next to the pole, on a meridian): all pairs for gca_gca_intersection, meridian arcs for point_within_gca; each case also "
     "with endpoints swapped, arcs swapped and rotated about the polar axis by 6 rational angles. non-trivial = arcs through/near a pole, across the antimeridian, or "
     "crossing pairs; distinct = (function, arc(s), query)"
 )
@@ -256,21 +256,30 @@ def run_case(case):
             arcs = arcs[: case["cap"]]
         for ai, (a, b) in enumerate(arcs):
             tags = _tags(a, b)
-            for kind in ("max", "min"):
-                want, m = S.extreme_lat(a, b, kind)
-                if m < MARGIN:
-                    continue
-                for vname, T in _variants(tier, ai):
-                    for swap in (False, True):
-                        aa, bb = (T(b), T(a)) if swap else (T(a), T(b))
+            wants = {kind: S.extreme_lat(a, b, kind) for kind in ("max", "min")}
+            for vname, T in _variants(tier, ai):
+                for swap in (False, True):
+                    aa, bb = (T(b), T(a)) if swap else (T(a), T(b))
+                    # ONE caller-owned array for the whole sequence max, min, max (callers reuse their arc arrays)
+                    arr = np.array([_f(aa), _f(bb)])
+                    keep = arr.copy()
+                    for step, kind in enumerate(("max", "min", "max")):
+                        want, m = wants[kind]
+                        if m < MARGIN:
+                            continue
                         res["evaluations"] += 1
                         try:
-                            got = float(extreme_gca_latitude(np.array([_f(aa), _f(bb)]), kind))
+                            got = float(extreme_gca_latitude(arr, kind))
                         except Exception as e:
                             got = float("nan")
+                        if not np.array_equal(arr, keep):
+                            V.append({"oracle": "extreme_gca_latitude", "sig": "c14:ext:modifies-input", "msg": "arc %s -> %s (variant %s%s): extreme_gca_latitude(%s) overwrote the caller's arc array: %s -> %s" % (S.fl(a), S.fl(b), vname, ", endpoints swapped" if swap else "", kind, keep.tolist(), arr.tolist()), "focus": {"kind": "replay1", "fn": "ext", "a": _rat(aa), "b": _rat(bb), "ext": kind, "tier": tier}})
+                            arr = keep.copy()
+                            break
                         if not abs(got - want) <= 1e-9:
                             interior = abs(want) > max(abs(math.asin(float(a[2]))), abs(math.asin(float(b[2])))) + 1e-12
-                            V.append({"oracle": "extreme_gca_latitude", "sig": "c14:ext:%s:%s:%s" % (kind, "interior-extremum" if interior else "endpoint-extremum", "+".join(tags) or "generic"), "msg": "arc %s -> %s (variant %s%s): extreme_gca_latitude(%s) = %r, exact %r (decision margin %.2e rad)" % (S.fl(aa), S.fl(bb), vname, ",swapped" if swap else "", kind, got, want, m), "focus": {"kind": "replay1", "fn": "ext", "a": _rat(aa), "b": _rat(bb), "ext": kind, "want": want, "tier": tier}})
+                            V.append({"oracle": "extreme_gca_latitude", "sig": "c14:ext:%s:%s:%s%s" % (kind, "interior-extremum" if interior else "endpoint-extremum", "+".join(tags) or "generic", ":after-earlier-call" if step else ""), "msg": "arc %s -> %s (variant %s%s, call %d on the same array): extreme_gca_latitude(%s) = %r, exact %r" % (S.fl(a), S.fl(b), vname, ", endpoints swapped" if swap else "", step, kind, got, want), "focus": {"kind": "replay1", "fn": "ext", "a": _rat(aa), "b": _rat(bb), "ext": kind, "tier": tier}})
+                            break
             res["transitions"] += 1
             key = digest(("ext", case["frame"], ai))
             res["states"].append(key)
@@ -367,8 +376,12 @@ def _replay1(case, res):
             V.append({"oracle": "point_within_gca", "sig": "c14:pwg:replay", "msg": "got %s, exact %s" % (got, want), "focus": case})
     elif case["fn"] == "ext":
         want, m = S.extreme_lat(a, b, case["ext"])
-        got = float(extreme_gca_latitude(np.array([_f(a), _f(b)]), case["ext"]))
-        if not abs(got - want) <= 1e-9:
+        arr = np.array([_f(a), _f(b)])
+        keep = arr.copy()
+        got = float(extreme_gca_latitude(arr, case["ext"]))
+        if not np.array_equal(arr, keep):
+            V.append({"oracle": "extreme_gca_latitude", "sig": "c14:ext:replay", "msg": "the caller's arc array was overwritten: %s -> %s" % (keep.tolist(), arr.tolist()), "focus": case})
+        elif not abs(got - want) <= 1e-9:
             V.append({"oracle": "extreme_gca_latitude", "sig": "c14:ext:replay", "msg": "got %r, exact %r" % (got, want), "focus": case})
     else:
         c, d = _unrat(case["c"]), _unrat(case["d"])
